@@ -91,6 +91,74 @@ def known_witness(tmp):
     return out, None
 
 
+def model_outcomes(case):
+    """every (k[, k2]) record of the Lean interrupt model M10 for this case"""
+    import driver
+    import dagcase
+    import dagrun
+    line = 'INTR ' + dagcase.encode(dagrun.normalise(case))[4:] + ' k=all k2=all'
+    out = driver.run_lines([line])[0]
+    singles, doubles = set(), set()
+    for rec in out.split('|')[1:]:
+        f = rec.split(':')
+        if len(f) != 7:
+            continue
+        tup = tuple(f[1:])
+        (doubles if '/' in f[0] else singles).add(tup)
+    return singles, doubles
+
+
+def real_tuple(rec):
+    st = rec['status']
+    if st.startswith('raised KeyboardInterrupt'):
+        out = 'interrupted'
+    elif st.startswith('returned'):
+        out = 'returned'
+    elif st.startswith('raised LabError'):
+        out = 'raised-LabError-' + st.split(' ')[2]
+    elif st.startswith('raised KeyError'):
+        out = 'raised-KeyError'
+    else:
+        out = st.split(' ')[0]
+    lst = lambda xs: ','.join(str(x) for x in sorted(set(int(x) for x in xs)))
+    execd = [l.split(' ')[1] for l in rec['execs'] if l.startswith('X ')]
+    return (out, lst(execd), lst(rec['store'].keys()), lst(rec.get('late', [])), lst(rec['alive_at_exit']), lst(rec['terminated']))
+
+
+def correspondence(results):
+    """each real interrupted run's outcome must be one of the outcomes the Lean model M10 produces over its
+    interrupt prefixes (simulation up to granularity: robust to line renumbering). Serial runs: full record;
+    process runs over the fake layer (workers execute and save at process start there): outcome, started-after,
+    alive-at-exit and terminated only, and only for cases whose schedule is the all-report one."""
+    by_case = {}
+    for case, rec in results:
+        if rec['status'].startswith('HARNESS-ERROR') or not rec['fired']:
+            continue
+        if case['be'] != 'serial' and case['sched']:
+            continue
+        by_case.setdefault(json.dumps(case, sort_keys=True), (case, []))[1].append(rec)
+    dis = []
+    npts = 0
+    for key, (case, recs) in by_case.items():
+        try:
+            singles, doubles = model_outcomes(case)
+        except Exception as e:
+            dis.append(dict(diff='INTR driver failed: ' + str(e)[:200]))
+            continue
+        proj = (lambda t: t) if case['be'] == 'serial' else (lambda t: (t[0], t[3], t[4], t[5]))
+        s1 = {proj(t) for t in singles}
+        s2 = {proj(t) for t in doubles} | s1
+        for rec in recs:
+            npts += 1
+            t = proj(real_tuple(rec))
+            ok = t in (s2 if len(rec['fired']) == 2 else s1)
+            if not ok:
+                dis.append(dict(diff='real interrupted run is not among the model outcomes', real=t, n1=rec['n1'], n2=rec['n2'],
+                                fired=rec['fired'], backend=case['be'],
+                                model_sample=sorted(s2 if len(rec['fired']) == 2 else s1)[:6]))
+    return dis, len(by_case), npts
+
+
 def real_signal_runs():
     tmp = tempfile.mkdtemp(prefix='verif-c14r-')
     cmds = []
@@ -164,6 +232,8 @@ def run(ctx):
         for be, ncases, max_tids, stride in plan:
             for _ in range(ncases):
                 case = intr.gen_case(rng, be, max_tids)
+                if be != 'serial' and len(cases) % 2 == 0:
+                    case['sched'] = []   # every wait consumes all running workers: matches the model's default drain schedule
                 n = count_lines(case, tmp)
                 cases.append((case, n))
                 pts = [[k, None] for k in range(1, n + 1, stride)]
@@ -216,6 +286,7 @@ def run(ctx):
                 violations.append(dict(what=w, known_match=km,
                                        replay=dict(kind='interrupt-point', case=case, n1=rec['n1'], n2=rec['n2'],
                                                    line=dagcase.encode(dagrun.normalise(case)), fired=rec['fired'])))
+        disagreements, corr_cases, corr_points = correspondence(results)
         wit, werr = known_witness(tmp)
         if werr:
             errors.append(werr)
@@ -241,7 +312,8 @@ def run(ctx):
             rule='one evaluation = one run_tasks call interrupted at a chosen line boundary (or pair of boundaries) of labtech code in the calling thread; non-trivial = the interrupt was actually delivered before run_tasks ended (distinct (case, boundary[, second boundary]) triples)',
             samples=[dict(line=dagcase.encode(dagrun.normalise(c)), line_boundaries=n) for c, n in cases[:3]],
             violations=[x for x in violations if not x.get('known_match')][:6] + [x for x in violations if x.get('known_match')][:2],
-            disagreements=[], distribution=dist,
+            disagreements=disagreements[:5], distribution=dict(dist, correspondence_cases=corr_cases, correspondence_points=corr_points),
+            traces_validated=corr_points,
             assumptions=['an interrupt is modelled as KeyboardInterrupt raised at a line boundary of labtech code in the calling thread; try:/except:/else:/finally: lines are not interrupt instants (CPython checks for signals only at calls, backward jumps and function entry)',
                          'process backends run over the fake-process layer for the sweep; real signals on real fork/spawn workers are exercised at two resting points only',
                          'tasks succeed (the property does not quantify over failures during the drain)'],
